@@ -654,7 +654,7 @@ fn process_request_obj(request: &Request, dbs: &Arc<Databases>, client: &mut Cli
         } => {
             log::info!("Processing resolve for {} to {} ", key, value);
             // Replica set or admin auth resolving
-            if client.auth.load(Ordering::SeqCst) {
+            let result = if client.auth.load(Ordering::SeqCst) {
                 apply_to_database_name(
                     dbs,
                     client,
@@ -686,7 +686,7 @@ fn process_request_obj(request: &Request, dbs: &Arc<Databases>, client: &mut Cli
                         }
                     },
                     &PermissionKind::Read,
-                );
+                )
             } else {
                 // a resolve writes the key: same access rules as any other write
                 apply_if_safe_access(&dbs, &client, &key, &|db| {
@@ -714,8 +714,13 @@ fn process_request_obj(request: &Request, dbs: &Arc<Databases>, client: &mut Cli
                         );
                         Response::Ok {}
                     }
-                }, PermissionKind::Write);
+                }, PermissionKind::Write)
             };
+            // a refused resolve must stay refused: answering Ok made replicate_request
+            // broadcast it to the cluster, where the (authenticated) links applied it
+            if let Response::Error { msg } = result {
+                return Response::Error { msg };
+            }
             return Response::Ok {};
         }
         Request::ListCommands {} => apply_if_auth(&client.auth, &|| {
